@@ -132,6 +132,16 @@ func (se seqEngine) Generate(rng *rand.Rand, prop string, thorough bool) *Plan {
 	cfg.NKeys = len(keys)
 	p.SetKeys(keys)
 	ops := append(pre, GenSeqOps(rng, cfg, g, &id)...)
+	if big {
+		// 1-3 times per run: empty one whole bucket that has buckets behind it in its chain (main or overflow),
+		// at seeded positions of the history
+		for n := 1 + rng.Intn(3); n > 0; n-- {
+			pos := len(pre) + rng.Intn(len(ops)-len(pre)+1)
+			if openAt(ops, pos) {
+				ops = append(ops[:pos:pos], append([]Op{{K: "delbucket", ID: rng.Intn(1 << 16)}}, ops[pos:]...)...)
+			}
+		}
+	}
 	if prop == "C02" && rng.Intn(4) == 0 && len(ops) > 4 {
 		// drain: at some point every key is deleted, the empty database is closed and reopened, and life goes on
 		// (an index that grew and was emptied keeps its size and shape across the restart)
@@ -280,7 +290,7 @@ func (se seqEngine) Execute(p *Plan) *RunResult {
 			continue
 		}
 		switch op.K {
-		case "put", "del", "compact", "itemsc":
+		case "put", "del", "compact", "itemsc", "delbucket":
 			mutatedThisSession = true
 		}
 		var v *Violation
